@@ -4,6 +4,7 @@
 #include <frg/random.hpp>
 #include <frg/algorithm.hpp>
 #include <array>
+#include <limits>
 #include <random>
 #include <algorithm>
 #include <memory>
@@ -77,7 +78,38 @@ static void array_case(Rng &r, long long &c) {
 	}
 }
 
+// comparison with element types whose operator== is not "same bytes": floating point (-0.0 == +0.0, NaN != NaN) and a class
+// with a user-provided == that ignores one member
+struct CaseInsensitive { char c; char pad; bool operator==(const CaseInsensitive &o) const { return (c | 0x20) == (o.c | 0x20); } };
+template<typename T, size_t N, typename Gen>
+static void array_compare_case(const char *tname, Rng &r, long long &c, Gen gen) {
+	char mode[48]; snprintf(mode, sizeof mode, "array-eq:%s:%zu", tname, N);
+	if(!want_mode(mode)) return;
+	for(int rep = 0; rep < 200; rep++, c++) {
+		if(!want_case(c)) continue;
+		begin_case(mode, c);
+		frg::array<T, N> fa, fb; std::array<T, N> sa, sb;
+		for(size_t i = 0; i < N; i++) { T v = gen(r); fa[i] = v; sa[i] = v; T w = r.chance(2, 3) ? v : gen(r); if(r.chance(1, 4)) w = gen(r); fb[i] = w; sb[i] = w; }
+		if(r.chance(1, 5)) { fb = fa; sb = sa; }
+		bool feq = (fa == fb), fne = (fa != fb), seq = (sa == sb);
+		if(feq != seq || fne == feq) violation(strf("C18:model:array:eq:%s", tname), strf("frg::array<%s,%zu>: a==b is %d, a!=b is %d, std::array says a==b is %d", tname, N, (int)feq, (int)fne, (int)seq));
+		bool fself = (fa == fa), sself = (sa == sa);
+		if(fself != sself) violation(strf("C18:model:array:eq:%s", tname), strf("frg::array<%s,%zu>: a==a is %d, std::array says %d", tname, N, (int)fself, (int)sself));
+		note_distinct(mix(hash_bytes(&fa, sizeof fa), mix(hash_bytes(&fb, sizeof fb), N)));
+		count("array_compare_cases");
+	}
+}
+
 static void run_array() {
+	{
+		Rng r(derive_seed("array-eq")); long long c = 0;
+		auto dgen = [](Rng &r) -> double { switch(r.below(6)) { case 0: return 0.0; case 1: return -0.0; case 2: return std::numeric_limits<double>::quiet_NaN(); case 3: return 1.5; case 4: return -1.5; default: return (double)r.below(3); } };
+		auto fgen = [](Rng &r) -> float { switch(r.below(5)) { case 0: return 0.0f; case 1: return -0.0f; case 2: return std::numeric_limits<float>::quiet_NaN(); case 3: return 2.0f; default: return (float)r.below(3); } };
+		auto cgen = [](Rng &r) -> CaseInsensitive { return CaseInsensitive{(char)("aAbB"[r.below(4)]), (char)r.below(3)}; };
+		array_compare_case<double, 1>("double", r, c, dgen); array_compare_case<double, 2>("double", r, c, dgen); array_compare_case<double, 5>("double", r, c, dgen);
+		array_compare_case<float, 3>("float", r, c, fgen); array_compare_case<float, 8>("float", r, c, fgen);
+		array_compare_case<CaseInsensitive, 1>("class-with-own-eq", r, c, cgen); array_compare_case<CaseInsensitive, 4>("class-with-own-eq", r, c, cgen);
+	}
 	Rng r(derive_seed("array"));
 	long long c = 0;
 	array_case<uint8_t, 1>(r, c); array_case<uint8_t, 2>(r, c); array_case<uint8_t, 3>(r, c); array_case<uint8_t, 7>(r, c); array_case<uint8_t, 8>(r, c); array_case<uint8_t, 17>(r, c);
